@@ -50,7 +50,9 @@ func (loader *VeneersLoader) load(reader io.Reader) (rewrite.LanguageRules, erro
 	var builderRules []builder.RewriteRule
 	var optionRules []option.RewriteRule
 
-	veneers := &Veneers{}
+	// decoding into a value (not a pointer to a pointer): a `null` document
+	// would otherwise leave a nil configuration behind
+	veneers := Veneers{}
 
 	decoder := yaml.NewDecoder(reader)
 	decoder.KnownFields(true)
